@@ -401,6 +401,8 @@ func (C11Iso) Events(env world.Env, mm mc.Model) []string {
 	// O points its primary name at a name of N (the chain accepts that); N then hands that name over to O: the transfer
 	// is N's to make, O's primary-name entry is not N's to change
 	evs = append(evs, "MakePrimaryOther:O", "TransferOwnName:N")
+	// C1, whom O has blocked, writes to O - by address and by O's name: O's inbox is O's, and O has shut C1 out of it
+	evs = append(evs, "NotifyO:C1", "NotifyOByName:C1")
 	evs = append(evs, "UpdateFeedOSame:N") // N re-submits exactly the value O's feed already holds
 	evs = append(evs, "PostSameFile:N")    // N posts the same content as O (in O's posting block: same content and start, other owner)
 	nj := world.MineAcctName("NJ", "jkl")  // the account whose address ends in "jkl" acts in its own name
@@ -481,6 +483,8 @@ func (C11Iso) Apply(env world.Env, mm mc.Model, ev string) mc.Step {
 		msg = notiftypes.NewMsgBlockSenders(who, w.A("X").Bech)
 	case "NotifyO":
 		msg = notiftypes.NewMsgCreateNotification(who, o, `{"from":"`+p[1]+`"}`, nil)
+	case "NotifyOByName":
+		msg = notiftypes.NewMsgCreateNotification(who, "owner.jkl", `{"from":"`+p[1]+`"}`, nil)
 	case "MakePrimary":
 		mp := rnstypes.NewMsgMakePrimary("owner.jkl")
 		mp.Creator = who
@@ -575,7 +579,7 @@ func init() {
 	regScenario(C11Iso{})
 	CaseReplayers["C11/signers"] = func(r *mc.Run, c string) { c11Signers(r, "quick") }
 	Props["C11"] = Prop{Level: "model_checking", Run: func(r *mc.Run, tier string) {
-		r.Rules = append(r.Rules, "(1) every message type registered for the custom modules (cross-checked against the Msg services of the registered file descriptors): every assignment of distinct valid addresses to its string fields (all permutations for <=5 fields, all rotations above): GetSigners = [creator], handler routable; (2) for every type three signed transactions through the real ante handler and DeliverTx: signed by another field's account (must be rejected, state unchanged), creator+extra signer (rejected), creator (must authenticate); (3) BFS over owner-only messages replayed by a non-owner N and by the owner O on a state where O owns a provider record, a feed, an inbox entry, a block list, a primary name and a storage file: N's messages leave every record of O byte-identical (N handing one of its own names to O after O pointed its primary name at it included: only the name record may change); (4) wasm binding PerformPostFile with creator = contract / another account")
+		r.Rules = append(r.Rules, "(1) every message type registered for the custom modules (cross-checked against the Msg services of the registered file descriptors): every assignment of distinct valid addresses to its string fields (all permutations for <=5 fields, all rotations above): GetSigners = [creator], handler routable; (2) for every type three signed transactions through the real ante handler and DeliverTx: signed by another field's account (must be rejected, state unchanged), creator+extra signer (rejected), creator (must authenticate); (3) BFS over owner-only messages replayed by a non-owner N and by the owner O on a state where O owns a provider record, a feed, an inbox entry, a block list, a primary name and a storage file: N's messages leave every record of O byte-identical (N handing one of its own names to O after O pointed its primary name at it included: only the name record may change; an account O has blocked writing to O by address and by O's name included); (4) wasm binding PerformPostFile with creator = contract / another account")
 		r.Assumptions = append(r.Assumptions, "records 'belonging to O' = keys or values containing O's address in storage/notification/rns stores, and the feed O created")
 		c11Signers(r, tier)
 		r.AddExplore(C11Iso{}, opts(tier, 4, 7, 60, 900, 100, 1000))
